@@ -57,7 +57,8 @@ class Check:
         os.makedirs(os.path.join(ROOT, "replays"), exist_ok=True)
 
     # ------------------------------------------------------------------ stage 1: translator
-    def extract(self):
+    def extract(self, relevant=None):
+        """relevant: table groups this property depends on (None = all); errors in other groups are recorded only"""
         rc, out, dt = sh([sys.executable, os.path.join(ROOT, "tools", "extract.py")], env=dict(ENV, VERIF_REPO=REPO))
         self.cov["stages"]["extract_s"] = round(dt, 2)
         try:
@@ -65,9 +66,12 @@ class Check:
         except Exception:
             summ = {"errors": ["extract:crashed"], "raw": out[-2000:]}
         self.cov["translator"] = summ
-        if rc != 0 or summ.get("errors"):
-            self.problems.append({"kind": "tie", "detail": "translator could not extract: %s" % summ.get("errors"),
-                                  "names": ["extract:" + e for e in summ.get("errors", ["?"])]})
+        errs = summ.get("errors", []) if isinstance(summ.get("errors", []), list) else ["?"]
+        if relevant is not None:
+            errs = [e for e in errs if e.split(":")[0] in relevant or e.startswith("extract")]
+        if errs:
+            self.problems.append({"kind": "tie", "detail": "translator could not extract: %s" % errs,
+                                  "names": ["extract:" + e for e in errs]})
         return summ
 
     # ------------------------------------------------------------------ stage 2: proofs
@@ -212,30 +216,42 @@ class Check:
         """Run the Lean driver over a transcript; stateless transcripts are split over NPROC processes."""
         t0 = time.time()
         stats = {}
-        lines = []
-        with open(path) as f:
-            for l in f:
-                if l.startswith("#STAT "):
-                    for kv in l.split()[1:]:
-                        k, v = kv.split("=", 1)
-                        try:
-                            stats[k] = stats.get(k, 0) + int(v)
-                        except ValueError:
-                            stats[k] = v
-                elif l.startswith("#"):
-                    continue
-                else:
-                    lines.append(l)
-        chunks = [lines]
-        if parallel and len(lines) > 64:
-            n = min(NPROC, len(lines))
-            chunks = [lines[i::n] for i in range(n)]
+
+        def stat_line(l):
+            for kv in l.split()[1:]:
+                k, v = kv.split("=", 1)
+                try:
+                    stats[k] = stats.get(k, 0) + int(v)
+                except ValueError:
+                    stats[k] = v
 
         def run(chunk):
             p = subprocess.run([DRIVER], input="".join(chunk), stdout=subprocess.PIPE, stderr=subprocess.STDOUT, text=True)
             return p.returncode, p.stdout
-        with ThreadPoolExecutor(max_workers=NPROC) as ex:
-            results = list(ex.map(run, chunks))
+
+        if not parallel:
+            # stateful transcript: stream the file to ONE driver process (never loaded into memory)
+            with open(path) as f:
+                p = subprocess.run([DRIVER], stdin=f, stdout=subprocess.PIPE, stderr=subprocess.STDOUT, text=True)
+            results = [(p.returncode, p.stdout)]
+            p2 = subprocess.run(["grep", "^#STAT ", path], stdout=subprocess.PIPE, text=True)
+            for l in p2.stdout.splitlines():
+                stat_line(l)
+        else:
+            lines = []
+            with open(path) as f:
+                for l in f:
+                    if l.startswith("#STAT "):
+                        stat_line(l)
+                    elif not l.startswith("#"):
+                        lines.append(l)
+            chunks = [lines]
+            if len(lines) > 64:
+                n = min(NPROC, len(lines))
+                chunks = [lines[i::n] for i in range(n)]
+            with ThreadPoolExecutor(max_workers=NPROC) as ex:
+                results = list(ex.map(run, chunks))
+            del lines, chunks
         rep = {"CORR": [], "SPEC": [], "MON": [], "MODELSPEC": [], "BAD": [], "lines": 0}
         summ = {"lines": 0, "corr": 0, "spec": 0, "mon": 0, "modelspec": 0, "bad": 0}
         for rc, out in results:
